@@ -98,6 +98,7 @@ struct Run {
   int64_t only = -1;
   Slot* slot = nullptr;
   Slot dummy_slot{};
+  std::string outpath;
 
   uint64_t next = 0;  // index of the next case
   uint64_t cur = 0;   // index of the case being executed
@@ -161,6 +162,19 @@ struct Run {
   }
   void fails(const std::string& key, const std::string& d) {
     fail(key, [&] { return d; });
+  }
+
+  // Ends the section now (used after an unrecoverable outcome such as a deadlocked execution):
+  // writes what was gathered and exits the process without running destructors.
+  [[noreturn]] void finish_now() {
+    if (only >= 0) {
+      printf("REPLAY-RESULT %s\n", viol.empty() ? "pass" : "fail");
+      fflush(stdout);
+      _exit(viol.empty() ? 0 : 1);
+    }
+    if (!outpath.empty()) write(outpath.c_str());
+    fflush(stdout);
+    _exit(0);
   }
 
   void write(const char* path) const {
@@ -351,6 +365,7 @@ inline int main_impl(int argc, char** argv) {
   r.tier = tier;
   r.section = section;
   r.slot = &r.dummy_slot;
+  r.outpath = out;
   if (!slotpath.empty()) {
     int fd = open(slotpath.c_str(), O_RDWR | O_CREAT, 0644);
     if (fd < 0 || ftruncate(fd, sizeof(Slot)) < 0) { perror("slot"); return 3; }
